@@ -86,6 +86,7 @@ fn check_seq(c: &SeqCase, reps: usize, obs: &mut Obs) -> Verdict {
     obs.class(alg_name(c.alg));
     obs.class_if(uniq >= 3, ">= 3 unique common items");
     obs.class_if(uniq >= 8, ">= 8 unique common items");
+    obs.class_if(uniq > 100, "> 100 unique common items");
     Verdict::Pass
 }
 
@@ -161,6 +162,8 @@ fn strat(tier: Tier) -> BoxedStrategy<Case> {
     });
     prop_oneof![
         4 => uniq_heavy.prop_map(Case::Seq),
+        // more than 100 unique items per side with crossing anchors
+        2 => (perm_pair(90, tier.pick(220, 400)), 0u8..3).prop_map(|((a, b), alg)| Case::Seq(SeqCase::full(if alg == 2 { 1 } else { alg }, a, b))),
         2 => seq_case(tier.pick(60, 150), true, 1).prop_map(Case::Seq),
         1 => text_case(12, false).prop_map(Case::Text),
         1 => text_case(tier.pick(130, 200), false).prop_map(Case::Text),
@@ -182,7 +185,7 @@ impl Prop for C20 {
         ]
     }
     fn stages(tier: Tier) -> Vec<Stage<Case>> {
-        vec![Stage { name: "random", kind: StageKind::Random { strategy: strat, cases: tier.pick(12_000, 200_000) } }]
+        vec![Stage { name: "random", kind: StageKind::Random { strategy: strat, cases: tier.pick(16_000, 200_000) } }]
     }
     fn check(case: &Case, obs: &mut Obs) -> Verdict {
         match case {
